@@ -520,6 +520,19 @@ func (w *World) buildOp(op *Op) *BuiltOp {
 		} else {
 			recv, send = w.peer(op.Peer), w.acct(op.Peer+1)
 		}
+		if s != nil && op.Actor >= 0 && op.Peer%3 == 0 {
+			// the counterparty of an existing stream sends the operation with the roles swapped (the receiver "tops
+			// up" or "cancels" naming itself as sender, the sender "claims" naming itself as receiver)
+			signer := recv
+			if op.Kind == StrClaim {
+				signer = send
+			}
+			if signer.Acct != nil && w.Str.Get(send.Key(), recv.Key()) == nil {
+				recv, send = send, recv
+				actor = signer
+				w.Class("op.stream-operation-with-roles-swapped")
+			}
+		}
 		if op.Kind == StrClaim {
 			setParties(recv)
 			recv = b.Named // the claim names its signer as receiver
